@@ -324,3 +324,35 @@ func VerifC11WriteStepFS() {
 	vAssert(!failed, "a plain write step failed")
 	vAssert(gotOK && got == src, "after the run the destination does not hold exactly the rendered source (stale bytes of an earlier generation?)")
 }
+
+func init() { vRegister("VerifC11RenderFilter", VerifC11RenderFilter) }
+
+// C11 (which application files a run writes at all): the main program is written exactly when it
+// was not excluded, the embedded spec exactly when it was not excluded, whatever the other options
+// (an explicit --main-package, template sets ...): a run never writes a file the user opted out of.
+func VerifC11RenderFilter() {
+	g := &GenOpts{}
+	g.LanguageOpts = GoLangOpts()
+	g.IncludeMain = vBool("IncludeMain")
+	g.ExcludeSpec = vBool("ExcludeSpec")
+	g.MainPackage = vOneOf("MainPackage", "", "x", "app-server")
+	g.IncludeSupport = vBool("IncludeSupport")
+	g.IncludeCLi = vBool2("IncludeCLi")
+	g.IsClient = vBool2("IsClient")
+	g.Template = vOneOf("Template", "", "stratoscale")
+	g.Name = vOneOf("Name", "", "app")
+	DefaultSectionOpts(g)
+	vCover("planned")
+	for i := range g.Sections.Application {
+		t := g.Sections.Application[i]
+		got := g.shouldRenderApp(&t, nil)
+		switch t.Name {
+		case "main":
+			vAssert(got == g.IncludeMain, "the main program is written although it was excluded (or skipped although it was asked for)")
+		case "embedded_spec":
+			vAssert(got == !g.ExcludeSpec, "the embedded spec is written although it was excluded (or skipped although it was asked for)")
+		default:
+			vAssert(got, "an application file of the plan is silently not written")
+		}
+	}
+}
